@@ -1780,7 +1780,8 @@ Proof.
     { destruct vs; [|reflexivity]. change (lenN (@nil val)) with 0 in Hlen. lia. }
     rewrite Ehd, mul64_small by (unfold two32, two64 in *; lia). rewrite N.eqb_refl. cbn [negb].
     rewrite <- Hsc, Ev. cbn [bind].
-    eexists _, _, _. split; [reflexivity|]. split; [exact Hst|]. rt_done. Show.
+    cbn [map] in *.
+    eexists _, _, _. split; [reflexivity|]. split; [exact Hst|]. rt_done.
 Qed.
 
 Lemma root_seq_enc vs : forallb (fun x => has_type x TRoot) vs = true ->
@@ -1869,5 +1870,1181 @@ Proof.
     rewrite Ero. cbn [bind].
     cbn [map offs_from] in Ev |- *. replace ((1 + lenN vs') * 4) with (4 * (1 + lenN vs')) by lia.
     rewrite Ev. cbn [bind].
-    eexists _, _, _. split; [reflexivity|]. split; [exact Hst|]. rt_done. Show.
+    cbn [map] in *.
+    eexists _, _, _. split; [reflexivity|]. split; [exact Hst|]. rt_done.
 Qed.
+
+Lemma fields_rt_of : forall fs, Forall rt_ok fs -> forall vs,
+  has_type_fields fs vs = true -> sumN (map part_len (ser_fields fs vs)) < two32 ->
+  fields_rt fs vs.
+Proof.
+  induction fs as [|f fs IH]; intros HF [|x vs] Hty HL; cbn [has_type_fields] in Hty;
+    try discriminate Hty; [constructor|].
+  pose proof (Forall_inv HF) as Hf; pose proof (Forall_inv_tail HF) as Hr.
+  apply andb_true_iff in Hty. destruct Hty as [Hty1 Hty2].
+  cbn [ser_fields map] in HL. rewrite sumN_cons in HL. unfold part_len at 1 in HL. cbn [fst snd] in HL.
+  constructor.
+  - apply Hf; [exact Hty1|]. destruct (spec_is_fixed f); lia.
+  - apply IH; [exact Hr|exact Hty2|lia].
+Qed.
+
+Lemma total_len_FA_VA fs vs :
+  sumN (map part_len (ser_fields fs vs)) =
+  sumN (map part_fixed_size (ser_fields fs vs)) + var_len fs vs.
+Proof.
+  unfold var_len. induction (ser_fields fs vs) as [|[fx bs] ps IH]; [reflexivity|].
+  cbn [map]. rewrite !sumN_cons, IH. unfold part_len, part_fixed_size. cbn [fst snd].
+  destruct fx; lia.
+Qed.
+
+Lemma rt_cont fs : wf_ty (TContainer fs) = true -> Forall rt_ok fs -> rt_ok (TContainer fs).
+Proof.
+  intros Hwf IHfs v Hty HL. destruct v; cbn [has_type] in Hty; try discriminate Hty.
+  change (has_type_fields fs vs = true) in Hty.
+  cbn [wf_ty] in Hwf. apply andb_true_iff in Hwf. destruct Hwf as [_ Hwfs].
+  rewrite spec_ser_cont in *. cbn [spec_is_fixed].
+  pose proof HL as HL'. rewrite ser_parts_lenN in HL'.
+  pose proof (fields_rt_of fs IHfs vs Hty HL') as Hrt.
+  rewrite total_len_FA_VA in HL'.
+  intros c st d rest Hok E Hav Hsc. rewrite flat_dec_cont.
+  rewrite ser_parts_FA_VA in *.
+  set (FL := sumN (map part_fixed_size (ser_fields fs vs))) in *.
+  rewrite lenN_app in *. pose proof (lenN_FA fs vs FL) as EFA. pose proof (lenN_VA fs vs FL) as EVA.
+  fold FL in EFA.
+  destruct (forallb spec_is_fixed fs) eqn:Hfx.
+  - rewrite (var_len_all_fixed fs vs Hfx) in EVA. apply lenN_nil_iff in EVA. rewrite EVA in *.
+    rewrite app_nil_r in *. change (lenN (@nil byte)) with 0 in *. rewrite N.add_0_r in *.
+    destruct (dec_fixed_fields_rt c fs vs O FL st d rest Hrt Hfx Hok E Hav)
+      as (cs' & st' & d' & Ev & Hst & Ech & Emax & Eidx).
+    rewrite Ev. cbn [bind].
+    eexists _, _, _. split; [reflexivity|]. split; [exact Hst|]. rt_done.
+  - specialize (Hsc eq_refl). cbv zeta. rewrite <- app_assoc in E.
+    destruct (d_cont_fixed_rt c fs vs O 0 FL st d (VA fs vs FL ++ rest) Hrt Hwfs Hty Hok E)
+      as (dfs & st1 & d1 & Ev & Hm & Hst1 & Ech & Emax & Eidx).
+    { lia. }
+    { lia. }
+    { pose proof two32_lt_two64. lia. }
+    rewrite Ev. cbn [bind]. rewrite first_var_off_fvo, (fvo_match fs vs FL dfs Hm Hfx).
+    rewrite N.add_0_l, EFA, N.eqb_refl. cbn [negb].
+    assert (Hok1 : rd_ok st1 d1) by (eapply rd_ok_advance; try eassumption; lia).
+    assert (E1 : r_stream st1 = VA fs vs FL ++ rest).
+    { eapply (stepped_stream_rest st st1 _ (FA fs vs FL)); [exact E|exact Hst1]. }
+    destruct (d_cont_var_rt c d1 (dr_scope d) fs vs dfs O FL st1 rest Hm Hrt) as (cs' & st2 & Ev2 & Hst2);
+      try assumption.
+    { lia. }
+    { rewrite Ech, (stepped_avail _ _ _ _ Hst1). lia. }
+    rewrite Ev2. cbn [bind]. rewrite Ech in Hst2.
+    eexists _, _, _. split; [reflexivity|].
+    split; [eapply stepped_eq; [|eapply stepped_trans; [exact Hst1|exact Hst2]]; lia|]. rt_done.
+Qed.
+
+Lemma rt_union none opts : wf_ty (TUnion none opts) = true -> Forall rt_ok opts ->
+  rt_ok (TUnion none opts).
+Proof.
+  intros Hwf IHopts v Hty HL. destruct v as [| | | | | |sel ov]; cbn [has_type] in Hty; try discriminate Hty.
+  change (has_type (VUnion sel ov) (TUnion none opts) = true) in Hty.
+  cbn [wf_ty] in Hwf. apply andb_true_iff in Hwf. destruct Hwf as [Hwf Hwfs].
+  apply andb_true_iff in Hwf. destruct Hwf as [_ Hcnt]. apply N.leb_le in Hcnt.
+  unfold union_count in Hcnt.
+  rewrite spec_ser_union in *. cbn [spec_is_fixed].
+  intros c st d rest Hok E Hav Hsc. specialize (Hsc eq_refl). rewrite flat_dec_union.
+  rewrite lenN_cons in *. cbn [app] in E.
+  (* the selector byte *)
+  assert (Hsel : sel < 256).
+  { destruct ov as [x|].
+    - apply has_type_union_some in Hty. destruct Hty as (_ & o & Hnth & _).
+      assert (nat_of (if none then sel - 1 else sel) < length opts)%nat
+        by (apply nth_error_Some; congruence).
+      unfold nat_of in *. destruct none; lia.
+    - apply has_type_union_none in Hty. destruct Hty as [_ ->]. lia. }
+  destruct (read_enc st d [byte_of_N sel] _ Hok E) as (st1 & Er & Hst1).
+  { change (lenN [byte_of_N sel]) with 1. lia. }
+  change (lenN [byte_of_N sel]) with 1 in *.
+  unfold dr_read_byte. rewrite Er. cbn [bind le_val].
+  rewrite BitfieldsProofs.N_of_byte_of_N by exact Hsel.
+  replace (sel + 256 * 0) with sel by lia.
+  set (d1 := mkDR (d_i d + 1) (d_max d) (d_chain d)) in *.
+  assert (Hok1 : rd_ok st1 d1).
+  { eapply rd_ok_advance; try eassumption; unfold d1; cbn [d_chain d_max d_i]; try reflexivity; lia. }
+  pose proof (stepped_stream_rest st st1 _ [byte_of_N sel] _ E Hst1) as E1.
+  pose proof Hok as (Hi & _ & _ & _).
+  destruct ov as [x|].
+  - apply has_type_union_some in Hty. destruct Hty as (Hns & o & Hnth & Htyx).
+    rewrite Hns. rewrite !pick_ty_nth_error in *. rewrite Hnth in *.
+    assert (Hin : In o opts) by (eapply nth_error_In; eassumption).
+    rewrite Forall_forall in IHopts. rewrite forallb_forall in Hwfs.
+    pose proof (IHopts o Hin x Htyx) as Ho.
+    unfold dec_union_opt.
+    assert (Eguard : negb (flat_fixed_len o =? 0) && negb (flat_fixed_len o =? dr_scope d1) = false).
+    { rewrite nonneg_fsz by auto. destruct (spec_is_fixed o) eqn:Hfo; [|reflexivity]. cbn [andb].
+      unfold flat_fixed_len. rewrite Hfo. rewrite <- (spec_ser_fixed_len o x Hfo Htyx).
+      apply negb_false_iff, N.eqb_eq. unfold d1, dr_scope in *. cbn [d_i d_max]. lia. }
+    rewrite Eguard.
+    destruct (Ho ltac:(lia) CFresh st1 d1 rest Hok1 E1) as (c' & st2 & d2 & Ed & Hst2 & Ech & Emax & Eidx).
+    { unfold d1. cbn [d_chain]. rewrite (stepped_avail _ _ _ _ Hst1). lia. }
+    { intros _. unfold d1, dr_scope in *. cbn [d_i d_max]. lia. }
+    rewrite Ed. cbn [bind]. unfold d1 in *. cbn [d_chain d_max d_i] in *.
+    eexists _, _, _. split; [reflexivity|]. split; [eapply stepped_trans; eassumption|]. rt_done.
+  - apply has_type_union_none in Hty. destruct Hty as [-> ->]. cbn [andb]. rewrite N.eqb_refl.
+    change (lenN (@nil byte)) with 0 in *.
+    assert (Esc : dr_scope d1 =? 0 = true).
+    { apply N.eqb_eq. unfold d1, dr_scope in *. cbn [d_i d_max]. lia. }
+    rewrite Esc. cbn [negb].
+    eexists _, _, _. split; [reflexivity|]. rewrite N.add_0_r. split; [exact Hst1|]. unfold d1. rt_done.
+Qed.
+
+Lemma flat_dec_rt : forall t, wf_ty t = true -> small_params t = true -> rt_ok t.
+Proof.
+  induction t as [w| |n| |n|n|e n IHe|e n IHe|fs IHfs|none opts IHopts] using ty_ind';
+    intros Hwf Hsm.
+  - (* uint *)
+    intros v Hty HL. destruct v; cbn [has_type] in Hty; try discriminate Hty.
+    apply N.ltb_lt in Hty. cbn [spec_ser spec_is_fixed] in *.
+    intros c st d rest Hok E Hav _. cbn [flat_dec].
+    destruct (read_enc st d _ rest Hok E Hav) as (st' & Er & Hst).
+    pose proof (lenN_le_bytes w n) as El. rewrite El in Er. rewrite Er. cbn [bind].
+    rewrite le_val_le_bytes_small by (rewrite pow256; exact Hty).
+    eexists _, _, _. split; [reflexivity|]. split; [exact Hst|]. rt_done.
+  - (* bool *)
+    intros v Hty HL. destruct v; cbn [has_type] in Hty; try discriminate Hty.
+    cbn [spec_ser spec_is_fixed] in *.
+    intros c st d rest Hok E Hav _. cbn [flat_dec]. unfold dr_read_byte.
+    destruct (read_enc st d _ rest Hok E Hav) as (st' & Er & Hst).
+    change (lenN [byte_of_N (if b then 1 else 0)]) with 1 in *. rewrite Er. cbn [bind].
+    destruct b.
+    + change (le_val [byte_of_N 1]) with 1. change (1 <? 1) with false. cbv iota.
+      eexists _, _, _. split; [reflexivity|]. split; [exact Hst|]. rt_done.
+    + change (le_val [byte_of_N 0]) with 0. change (1 <? 0) with false. cbv iota.
+      eexists _, _, _. split; [reflexivity|]. split; [exact Hst|]. rt_done.
+  - (* bytesN *)
+    intros v Hty HL. destruct v; cbn [has_type] in Hty; try discriminate Hty.
+    apply N.eqb_eq in Hty. subst n. cbn [spec_ser spec_is_fixed] in *.
+    intros c st d rest Hok E Hav _. cbn [flat_dec].
+    destruct (d_bytes_enc c st d _ rest Hok E Hav) as (st' & Er & Hst).
+    fold (lenN bs). rewrite Er. cbn [bind].
+    eexists _, _, _. split; [reflexivity|]. split; [exact Hst|]. rt_done.
+  - (* root *)
+    intros v Hty HL. destruct v; cbn [has_type] in Hty; try discriminate Hty.
+    apply N.eqb_eq in Hty. fold (lenN bs) in Hty. cbn [spec_ser spec_is_fixed] in *.
+    intros c st d rest Hok E Hav _. cbn [flat_dec].
+    destruct (read_enc st d _ rest Hok E Hav) as (st' & Er & Hst).
+    rewrite Hty in Er. rewrite Er. cbn [bind].
+    eexists _, _, _. split; [reflexivity|]. split; [exact Hst|]. rt_done.
+  - (* bitvector *)
+    intros v Hty HL. destruct v; cbn [has_type] in Hty; try discriminate Hty.
+    apply N.eqb_eq in Hty. subst n. fold (lenN bs) in *. cbn [spec_ser spec_is_fixed] in *.
+    intros c st d rest Hok E Hav _. cbn [flat_dec].
+    pose proof (bits_to_bytes_lenN bs) as El.
+    assert (Hn : lenN bs < 2 ^ 64 - 7).
+    { unfold two32 in HL. change (2 ^ 64 - 7) with 18446744073709551609. lia. }
+    rewrite wrap64_small by (unfold two64; change (2 ^ 64 - 7) with 18446744073709551609 in Hn; lia).
+    rewrite BitfieldsProofs.shiftr3, <- El.
+    destruct (d_bytes_enc c st d _ rest Hok E Hav) as (st' & Er & Hst).
+    rewrite Er. cbn [bind].
+    pose proof (BitfieldsProofs.bitvector_check_complete bs Hn) as Hc.
+    change (bitvector_check (bits_to_bytes bs) (lenN bs) = OK tt) in Hc. rewrite Hc. cbn [bind].
+    rewrite bytes_to_bits_exact.
+    eexists _, _, _. split; [reflexivity|]. split; [exact Hst|]. rt_done.
+  - (* bitlist *)
+    intros v Hty HL. destruct v; cbn [has_type] in Hty; try discriminate Hty.
+    apply N.leb_le in Hty. fold (lenN bs) in *. cbn [spec_ser spec_is_fixed small_params] in *.
+    apply N.leb_le in Hsm. change (2 ^ 56) with 72057594037927936 in Hsm.
+    intros c st d rest Hok E Hav Hsc. specialize (Hsc eq_refl). cbn [flat_dec]. rewrite <- Hsc.
+    pose proof (ser_bitlist_lenN bs) as El. unfold ser_bitlist in *.
+    rewrite BitfieldsProofs.shiftr3.
+    destruct (N.ltb_spec (n / 8 + 1) (lenN (bits_to_bytes (bs ++ [true])))) as [|_]; [lia|].
+    destruct (d_bytes_enc c st d _ rest Hok E Hav) as (st' & Er & Hst).
+    rewrite Er. cbn [bind].
+    assert (Hn : n < 2 ^ 64) by (change (2 ^ 64) with 18446744073709551616; lia).
+    pose proof (BitfieldsProofs.bitlist_check_complete bs n Hn Hty) as Hc.
+    unfold BitfieldsProofs.pack_bitlist in Hc. rewrite Hc. cbn [bind].
+    assert (Hb : lenN bs < 2 ^ 64) by (change (2 ^ 64) with 18446744073709551616; lia).
+    pose proof (BitfieldsProofs.bitlist_len_pack bs Hb) as Hlen.
+    change (bitlist_len (bits_to_bytes (bs ++ [true])) = lenN bs) in Hlen.
+    rewrite Hlen, bytes_to_bits_bitlist.
+    eexists _, _, _. split; [reflexivity|]. split; [exact Hst|]. rt_done.
+  - cbn [wf_ty small_params] in *. apply andb_true_iff in Hsm. destruct Hsm as [_ Hsm].
+    apply rt_vector; [exact Hwf|]. apply andb_true_iff in Hwf. destruct Hwf as [_ Hwe]. auto.
+  - cbn [wf_ty small_params] in *. apply andb_true_iff in Hsm. destruct Hsm as [_ Hsm].
+    apply rt_list; [exact Hwf|]. auto.
+  - apply rt_cont; [exact Hwf|]. cbn [wf_ty small_params] in *.
+    apply andb_true_iff in Hwf. destruct Hwf as [_ Hwfs].
+    rewrite Forall_forall in *. rewrite forallb_forall in Hwfs, Hsm. auto.
+  - apply rt_union; [exact Hwf|]. cbn [wf_ty small_params] in *.
+    apply andb_true_iff in Hwf. destruct Hwf as [_ Hwfs].
+    rewrite Forall_forall in *. rewrite forallb_forall in Hwfs, Hsm. auto.
+Qed.
+
+Lemma new_reader_ok bs : lenN bs < two63 ->
+  rd_ok (mkRS bs [lenN bs]) (mkDR 0 (lenN bs) [O]) /\
+  avail (mkRS bs [lenN bs]) [O] = lenN bs.
+Proof.
+  intros H. assert (Eav : avail (mkRS bs [lenN bs]) [O] = lenN bs).
+  { unfold avail, lim_get. cbn [fold_right r_stream r_lims nth]. fold (lenN bs). lia. }
+  split; [|exact Eav]. unfold rd_ok. cbn [d_i d_max d_chain]. rewrite Eav.
+  split; [lia|]. split; [exact H|]. split.
+  - split; [repeat constructor; intros []|]. repeat constructor.
+  - unfold dr_scope. cbn [d_i d_max]. lia.
+Qed.
+
+Lemma C09_roundtrip_lemma t v :
+  wf_ty t = true -> small_params t = true -> has_type v t = true ->
+  lenN (spec_ser t v) < 2 ^ 32 ->
+  forall c : ctree, exists c', flat_decode t c (spec_ser t v) = OK (v, c').
+Proof.
+  intros Hwf Hsm Hty HL c. change (2 ^ 32) with two32 in HL.
+  pose proof (flat_dec_rt t Hwf Hsm v Hty HL) as Hrt.
+  unfold flat_decode, new_reader.
+  destruct (new_reader_ok (spec_ser t v)) as [Hok Eav].
+  { unfold two32, two63 in *. lia. }
+  destruct (Hrt c _ _ [] Hok) as (c' & st' & d' & Ed & _).
+  - cbn [r_stream]. symmetry. apply app_nil_r.
+  - cbn [d_chain]. rewrite Eav. apply N.le_refl.
+  - intros _. unfold dr_scope. cbn [d_i d_max]. lia.
+  - rewrite Ed. cbn [bind]. exists c'. reflexivity.
+Qed.
+
+Lemma C09_encode_decode_lemma t v bs :
+  wf_ty t = true -> small_params t = true -> has_type v t = true ->
+  lenN (spec_ser t v) < 2 ^ 32 -> flat_enc t v = OK bs ->
+  forall c : ctree, exists c', flat_decode t c bs = OK (v, c').
+Proof.
+  intros Hwf Hsm Hty HL He. rewrite (C09_encode_spec_lemma t v Hwf Hty HL) in He.
+  inversion He; subst bs. apply C09_roundtrip_lemma; assumption.
+Qed.
+
+(* the side condition [small_params] of the round trip is needed: a Bitlist limit that is not a
+   uint64 makes BitlistCheck's uint64 subtraction wrap *)
+Example cex_roundtrip_limit :
+  let t := TBitlist (2 ^ 64) in let v := VBits [true] in
+  wf_ty t = true /\ has_type v t = true /\ flat_decode t CFresh (spec_ser t v) = Err.
+Proof. vm_compute. repeat split. Qed.
+
+(* ------------------------------------------------------------------------------------ *)
+(** * 8. An accepting decoder consumes exactly its scope: canonicity *)
+
+Lemma le_val_bound : forall bs, le_val bs < 256 ^ N.of_nat (length bs).
+Proof.
+  induction bs as [|b bs IH]; [cbn; lia|].
+  cbn [le_val length]. rewrite Nat2N.inj_succ, N.pow_succ_r'.
+  pose proof (BitfieldsProofs.N_of_byte_lt b). set (P := 256 ^ N.of_nat (length bs)) in *. lia.
+Qed.
+
+Lemma byte_of_N_add a x : byte_of_N (a + 256 * x) = byte_of_N a.
+Proof.
+  unfold byte_of_N. replace ((a + 256 * x) mod 256) with (a mod 256); [reflexivity|].
+  rewrite N.mul_comm, N.mod_add by discriminate. reflexivity.
+Qed.
+
+Lemma le_bytes_le_val : forall bs, le_bytes (length bs) (le_val bs) = bs.
+Proof.
+  induction bs as [|b bs IH]; [reflexivity|].
+  cbn [length le_val le_bytes]. rewrite byte_of_N_add, BitfieldsProofs.byte_of_N_of_byte. f_equal.
+  pose proof (BitfieldsProofs.N_of_byte_lt b).
+  replace ((N_of_byte b + 256 * le_val bs) / 256) with (le_val bs) by lia. exact IH.
+Qed.
+
+(* [enc] was read from the stream through chain [ch], taking [st] to [st'] *)
+Definition consumed (st st' : rstate) (ch : list nat) (enc : list byte) : Prop :=
+  (exists rest, r_stream st = enc ++ rest) /\ stepped st st' ch (lenN enc) /\ lenN enc <= avail st ch.
+
+Lemma consumed_nil st ch : consumed st st ch [].
+Proof.
+  split; [exists (r_stream st); reflexivity|]. split; [apply stepped_refl|].
+  change (lenN (@nil byte)) with 0. lia.
+Qed.
+
+Lemma consumed_app st st1 st2 ch e1 e2 :
+  consumed st st1 ch e1 -> consumed st1 st2 ch e2 -> consumed st st2 ch (e1 ++ e2).
+Proof.
+  intros ((r1 & E1) & S1 & A1) ((r2 & E2) & S2 & A2).
+  pose proof (stepped_stream_rest _ _ _ _ _ E1 S1) as Er. rewrite Er in E2.
+  unfold consumed. rewrite lenN_app. split; [exists r2; rewrite E1, E2, app_assoc; reflexivity|].
+  split; [eapply stepped_trans; eassumption|]. rewrite (stepped_avail _ _ _ _ S1) in A2. lia.
+Qed.
+
+Lemma consumed_rd_ok st st' d d' enc :
+  rd_ok st d -> consumed st st' (d_chain d) enc ->
+  d_chain d' = d_chain d -> d_max d' = d_max d -> d_i d <= d_i d' <= d_i d + lenN enc ->
+  rd_ok st' d'.
+Proof. intros Hok (_ & S & A) Ech Emax Eidx. eapply rd_ok_advance; eassumption. Qed.
+
+Lemma consumed_rd_ok_same st st' d enc :
+  rd_ok st d -> consumed st st' (d_chain d) enc -> rd_ok st' d.
+Proof. intros Hok (_ & S & _). eapply rd_ok_same; eassumption. Qed.
+
+Lemma consumed_read st d k bs st' d' :
+  rd_ok st d -> dr_read st d k = OK (bs, st', d') ->
+  consumed st st' (d_chain d) bs /\ lenN bs = k /\ d' = mkDR (d_i d + k) (d_max d) (d_chain d).
+Proof.
+  intros Hok H. destruct (dr_read_inv st d k bs st' d' Hok H) as (Hav & -> & Hst & ->).
+  pose proof (avail_le_stream st (d_chain d)) as Hle.
+  assert (El : lenN (firstn (nat_of k) (r_stream st)) = k) by (apply firstn_lenN; lia).
+  split; [|split; [exact El|reflexivity]].
+  split; [exists (skipn (nat_of k) (r_stream st)); symmetry; apply firstn_skipn|].
+  rewrite El. split; assumption.
+Qed.
+
+Lemma consumed_d_bytes c n st d bs c' st' d' :
+  rd_ok st d -> d_bytes c n st d = OK (bs, c', st', d') ->
+  consumed st st' (d_chain d) bs /\ lenN bs = n /\ d' = mkDR (d_i d + n) (d_max d) (d_chain d).
+Proof.
+  intros Hok H. unfold d_bytes in H.
+  destruct (dr_read st d n) as [[[bs0 st0] d0]| |] eqn:Er; cbn [bind] in H; try discriminate H.
+  inversion H; subst. eapply consumed_read; eassumption.
+Qed.
+
+Lemma consumed_read_u32 st d off st' d' :
+  rd_ok st d -> dr_read_u32 st d = OK (off, st', d') ->
+  consumed st st' (d_chain d) (le_bytes 4 off) /\ off < two32 /\
+  d' = mkDR (d_i d + 4) (d_max d) (d_chain d).
+Proof.
+  intros Hok H. unfold dr_read_u32 in H.
+  destruct (dr_read st d 4) as [[[bs st0] d0]| |] eqn:Er; cbn [bind] in H; try discriminate H.
+  inversion H; subst. destruct (consumed_read _ _ _ _ _ _ Hok Er) as (Hc & El & ->).
+  assert (Elen : length bs = 4%nat) by (unfold lenN in El; lia).
+  pose proof (le_bytes_le_val bs) as Eb. rewrite Elen in Eb. rewrite Eb.
+  pose proof (le_val_bound bs) as Hb. rewrite Elen in Hb.
+  split; [exact Hc|]. split; [exact Hb|reflexivity].
+Qed.
+
+Lemma consumed_read_byte st d b st' d' :
+  rd_ok st d -> dr_read_byte st d = OK (b, st', d') ->
+  consumed st st' (d_chain d) [byte_of_N b] /\ b < 256 /\
+  d' = mkDR (d_i d + 1) (d_max d) (d_chain d).
+Proof.
+  intros Hok H. unfold dr_read_byte in H.
+  destruct (dr_read st d 1) as [[[bs st0] d0]| |] eqn:Er; cbn [bind] in H; try discriminate H.
+  inversion H; subst. destruct (consumed_read _ _ _ _ _ _ Hok Er) as (Hc & El & ->).
+  destruct bs as [|x [|y bs]]; try (unfold lenN in El; cbn [length] in El; lia).
+  cbn [le_val]. replace (N_of_byte x + 256 * 0) with (N_of_byte x) by lia.
+  rewrite BitfieldsProofs.byte_of_N_of_byte.
+  split; [exact Hc|]. split; [apply BitfieldsProofs.N_of_byte_lt|reflexivity].
+Qed.
+
+(* --- the specification of an accepting decoder --- *)
+Definition dec_post (t : ty) (st : rstate) (d : dreader) (v : val) (st' : rstate) (d' : dreader)
+  : Prop :=
+  has_type v t = true /\
+  consumed st st' (d_chain d) (spec_ser t v) /\
+  (spec_is_fixed t = false -> lenN (spec_ser t v) = dr_scope d) /\
+  d_chain d' = d_chain d /\ d_max d' = d_max d /\
+  d_i d <= d_i d' <= d_i d + lenN (spec_ser t v).
+
+Definition dec_sd (dec : fdecoder) (t : ty) : Prop :=
+  forall c st d v c' st' d', rd_ok st d -> dec c st d = OK (v, c', st', d') ->
+  dec_post t st d v st' d'.
+
+Lemma in_sub_scope_inv dec t c size st d v c' st2 :
+  dec_sd dec t -> rd_ok st d -> in_sub_scope dec c size st d = OK (v, c', st2) ->
+  has_type v t = true /\ consumed st st2 (d_chain d) (spec_ser t v) /\
+  size <= dr_scope d /\ lenN (spec_ser t v) <= size /\
+  (spec_is_fixed t = false -> lenN (spec_ser t v) = size).
+Proof.
+  intros Hsd Hok H. unfold in_sub_scope in H.
+  destruct (dr_sub_scope st d size) as [[st1 sd]| |] eqn:Es; cbn [bind] in H; try discriminate H.
+  destruct (dec c st1 sd) as [[[[v0 c0] st0] d0]| |] eqn:Ed; cbn [bind] in H; try discriminate H.
+  inversion H; subst. clear H.
+  destruct (dr_sub_scope_inv _ _ _ _ _ Es) as (Hsz & -> & ->).
+  destruct (sub_scope_facts st d size Hok Hsz) as (_ & Hok1 & Eav & Hup). cbv zeta in *.
+  destruct (Hsd _ _ _ _ _ _ _ Hok1 Ed) as (Hty & ((rest & Er) & Hst & Hav) & Hsc & _).
+  rewrite Eav in Hav. cbn [r_stream] in Er.
+  split; [exact Hty|]. split.
+  - split; [exists rest; exact Er|]. split; [apply Hup, Hst|lia].
+  - split; [exact Hsz|]. split; [lia|]. intros Hv. rewrite (Hsc Hv). unfold dr_scope. cbn [d_i d_max]. lia.
+Qed.
+
+Lemma d_vector_fixed_inv dec e cs size d : dec_sd dec e ->
+  forall count i st vs cs' st', rd_ok st d ->
+  d_vector_fixed dec cs i count size st d = OK (vs, cs', st') ->
+  length vs = count /\ forallb (fun x => has_type x e) vs = true /\
+  consumed st st' (d_chain d) (concat (map (spec_ser e) vs)).
+Proof.
+  intros Hsd. induction count as [|k IH]; intros i st vs cs' st' Hok H; cbn [d_vector_fixed] in H.
+  - inversion H; subst. split; [reflexivity|]. split; [reflexivity|apply consumed_nil].
+  - destruct (in_sub_scope dec (ct_child cs i) size st d) as [[[v c] st1]| |] eqn:Es; cbn [bind] in H;
+      try discriminate H.
+    destruct (d_vector_fixed dec cs (S i) k size st1 d) as [[[vs0 cs0] st2]| |] eqn:Ev; cbn [bind] in H;
+      try discriminate H.
+    inversion H; subst. clear H.
+    destruct (in_sub_scope_inv _ _ _ _ _ _ _ _ _ Hsd Hok Es) as (Hty & Hc & _).
+    destruct (IH _ _ _ _ _ (consumed_rd_ok_same _ _ _ _ Hok Hc) Ev) as (El & Hall & Hc2).
+    cbn [length forallb map concat]. rewrite El, Hty, Hall.
+    split; [reflexivity|]. split; [reflexivity|]. eapply consumed_app; eassumption.
+Qed.
+
+Lemma d_read_offsets_inv : forall count st d offs st' d', rd_ok st d ->
+  d_read_offsets count st d = OK (offs, st', d') ->
+  length offs = count /\ Forall (fun o => o < two32) offs /\
+  consumed st st' (d_chain d) (flat_map (le_bytes 4) offs) /\
+  d' = mkDR (d_i d + 4 * N.of_nat count) (d_max d) (d_chain d).
+Proof.
+  induction count as [|k IH]; intros st d offs st' d' Hok H; cbn [d_read_offsets] in H.
+  - inversion H; subst. split; [reflexivity|]. split; [constructor|]. split; [apply consumed_nil|].
+    rewrite N.mul_0_r, N.add_0_r. destruct d'; reflexivity.
+  - destruct (dr_read_u32 st d) as [[[off st1] d1]| |] eqn:Er; cbn [bind] in H; try discriminate H.
+    destruct (d_read_offsets k st1 d1) as [[[offs0 st2] d2]| |] eqn:Ev; cbn [bind] in H;
+      try discriminate H.
+    inversion H; subst. clear H.
+    destruct (consumed_read_u32 _ _ _ _ _ Hok Er) as (Hc & Hoff & ->).
+    assert (Hok1 : rd_ok st1 (mkDR (d_i d + 4) (d_max d) (d_chain d))).
+    { eapply consumed_rd_ok; try eassumption; cbn [d_chain d_max d_i]; try reflexivity.
+      change (lenN (le_bytes 4 off)) with 4. lia. }
+    destruct (IH _ _ _ _ _ Hok1 Ev) as (El & HF & Hc2 & ->). cbn [d_chain d_max d_i] in *.
+    cbn [length flat_map]. split; [rewrite El; reflexivity|]. split; [constructor; assumption|].
+    split; [eapply consumed_app; eassumption|]. f_equal. lia.
+Qed.
+
+Lemma sub64_cases a b : a < two64 -> b < two32 ->
+  (b <= a /\ sub64 a b = a - b) \/ (a < b /\ two64 - two32 <= sub64 a b).
+Proof.
+  intros Ha Hb. destruct (N.le_gt_cases b a) as [Hle|Hgt].
+  - left. split; [exact Hle|]. apply sub64_exact; assumption.
+  - right. split; [exact Hgt|]. unfold sub64, wrap64. unfold two64, two32 in *.
+    rewrite (N.mod_small b) by lia. rewrite N.mod_small by lia. lia.
+Qed.
+
+Lemma d_var_items_inv dec e cs vstyle d scope : dec_sd dec e -> spec_is_fixed e = false ->
+  scope < two63 ->
+  forall offs i prev st vs cs' st', rd_ok st d -> Forall (fun o => o < two32) offs ->
+  d_var_items (fun _ => dec) cs i offs scope prev vstyle st d = OK (vs, cs', st') ->
+  forallb (fun x => has_type x e) vs = true /\
+  offs = offs_from (map (fun v => lenN (spec_ser e v)) vs) (hd scope offs) /\
+  scope = hd scope offs + lenN (concat (map (spec_ser e) vs)) /\
+  consumed st st' (d_chain d) (concat (map (spec_ser e) vs)).
+Proof.
+  intros Hsd Hfx Hscope. induction offs as [|off rest IH]; intros i prev st vs cs' st' Hok HF H;
+    cbn [d_var_items] in H.
+  - inversion H; subst. cbn [hd map concat offs_from]. change (lenN (@nil byte)) with 0.
+    split; [reflexivity|]. split; [reflexivity|]. split; [lia|apply consumed_nil].
+  - destruct (off <? prev); [discriminate H|].
+    set (next := match rest with o' :: _ => o' | [] => scope end) in *.
+    assert (Enext : next = hd scope rest) by (destruct rest; reflexivity).
+    destruct (in_sub_scope dec (ct_child cs i) (sub64 next off) st d) as [[[v c] st1]| |] eqn:Es;
+      cbn [bind] in H; try discriminate H.
+    match type of H with context [d_var_items ?a ?b ?c ?dd ?e0 ?f ?g ?h ?k] =>
+      destruct (d_var_items a b c dd e0 f g h k) as [[[vs0 cs0] st2]| |] eqn:Ev end;
+      cbn [bind] in H; try discriminate H.
+    inversion H; subst vs cs' st'. clear H.
+    pose proof (Forall_inv HF) as Hoff; pose proof (Forall_inv_tail HF) as HF'. cbv beta in Hoff.
+    destruct (in_sub_scope_inv _ _ _ _ _ _ _ _ _ Hsd Hok Es) as (Hty & Hc & Hsz & _ & Hm).
+    specialize (Hm Hfx).
+    assert (Hnext : next < two64).
+    { rewrite Enext. destruct rest as [|o' rest']; cbn [hd].
+      - unfold two63, two64 in *. lia.
+      - pose proof (Forall_inv HF') as Ho'. cbv beta in Ho'. unfold two32, two64 in *. lia. }
+    pose proof Hok as (Hi & Hmax & _ & _).
+    destruct (sub64_cases next off Hnext Hoff) as [[Hle Esub]|[_ Hbig]].
+    2:{ exfalso. unfold dr_scope, two63, two64, two32 in *. lia. }
+    rewrite Esub in *.
+    destruct (IH _ _ _ _ _ _ (consumed_rd_ok_same _ _ _ _ Hok Hc) HF' Ev) as (Hall & Eoffs & Esc & Hc2).
+    cbn [forallb map concat offs_from hd]. rewrite Hty, Hall. rewrite lenN_app.
+    split; [reflexivity|]. split; [|split].
+    + f_equal. rewrite Eoffs at 1. f_equal. lia.
+    + rewrite Esc. lia.
+    + eapply consumed_app; eassumption.
+Qed.
+
+Lemma dec_roots_inv : forall k st d v c' st' d', rd_ok st d ->
+  dec_roots k st d = OK (v, c', st', d') ->
+  exists bss, v = VSeq (map VBytes bss) /\ length bss = k /\ Forall (fun bs => lenN bs = 32) bss /\
+    consumed st st' (d_chain d) (concat bss) /\
+    d' = mkDR (d_i d + 32 * N.of_nat k) (d_max d) (d_chain d).
+Proof.
+  induction k as [|k IH]; intros st d v c' st' d' Hok H; cbn [dec_roots] in H.
+  - inversion H; subst. exists []. split; [reflexivity|]. split; [reflexivity|]. split; [constructor|].
+    split; [apply consumed_nil|]. rewrite N.mul_0_r, N.add_0_r. destruct d'; reflexivity.
+  - destruct (dr_read st d 32) as [[[bs st1] d1]| |] eqn:Er; cbn [bind] in H; try discriminate H.
+    destruct (dec_roots k st1 d1) as [[[[v0 c0] st2] d2]| |] eqn:Ev; cbn [bind] in H;
+      try discriminate H.
+    destruct v0; try discriminate H. inversion H; subst. clear H.
+    destruct (consumed_read _ _ _ _ _ _ Hok Er) as (Hc & El & ->).
+    assert (Hok1 : rd_ok st1 (mkDR (d_i d + 32) (d_max d) (d_chain d))).
+    { eapply consumed_rd_ok; try eassumption; cbn [d_chain d_max d_i]; try reflexivity. lia. }
+    destruct (IH _ _ _ _ _ _ Hok1 Ev) as (bss & Ev0 & Elen & HF & Hc2 & ->).
+    inversion Ev0; subst vs. cbn [d_chain d_max d_i] in *.
+    exists (bs :: bss). cbn [map length concat]. split; [reflexivity|]. split; [rewrite Elen; reflexivity|].
+    split; [constructor; assumption|]. split; [eapply consumed_app; eassumption|]. f_equal. lia.
+Qed.
+
+(* --- containers --- *)
+Fixpoint dfs_sound (fs : list ty) (dfs : list dfield) : Prop :=
+  match fs, dfs with
+  | [], [] => True
+  | f :: fs', DFixed v _ :: dfs' =>
+    spec_is_fixed f = true /\ has_type v f = true /\ dfs_sound fs' dfs'
+  | f :: fs', DVar o :: dfs' => spec_is_fixed f = false /\ o < two32 /\ dfs_sound fs' dfs'
+  | _, _ => False
+  end.
+
+Fixpoint FAd (fs : list ty) (dfs : list dfield) : list byte :=
+  match fs, dfs with
+  | f :: fs', DFixed v _ :: dfs' => spec_ser f v ++ FAd fs' dfs'
+  | f :: fs', DVar o :: dfs' => le_bytes 4 o ++ FAd fs' dfs'
+  | _, _ => []
+  end.
+
+Definition sd_ok (t : ty) : Prop := dec_sd (flat_dec t) t.
+
+Lemma d_cont_fixed_inv cs : forall fs, Forall sd_ok fs -> forallb wf_ty fs = true ->
+  forall i prev st d dfs p st' d', rd_ok st d -> prev < two64 ->
+  d_cont_fixed (map (fun f => (flat_fixed_len f, flat_dec f)) fs) cs i prev st d = OK (dfs, p, st', d') ->
+  dfs_sound fs dfs /\ consumed st st' (d_chain d) (FAd fs dfs) /\
+  p = wrap64 (prev + lenN (FAd fs dfs)) /\
+  d_chain d' = d_chain d /\ d_max d' = d_max d /\ d_i d <= d_i d' <= d_i d + lenN (FAd fs dfs).
+Proof.
+  induction fs as [|f fs IH]; intros HF Hwf i prev st d dfs p st' d' Hok Hprev H;
+    cbn [map d_cont_fixed] in H.
+  - inversion H; subst. cbn [dfs_sound FAd]. change (lenN (@nil byte)) with 0. rewrite N.add_0_r.
+    split; [exact I|]. split; [apply consumed_nil|]. split; [symmetry; apply wrap64_small, Hprev|].
+    repeat split; lia.
+  - pose proof (Forall_inv HF) as Hf; pose proof (Forall_inv_tail HF) as HF'.
+    cbn [forallb] in Hwf. apply andb_true_iff in Hwf. destruct Hwf as [Hwf1 Hwf2].
+    rewrite nonneg_fsz in H by exact Hwf1.
+    destruct (spec_is_fixed f) eqn:Hfx.
+    + destruct (in_sub_scope (flat_dec f) (ct_child cs i) (flat_fixed_len f) st d) as [[[v c] st1]| |] eqn:Es;
+        cbn [bind] in H; try discriminate H.
+      match type of H with context [d_cont_fixed ?a ?b ?c0 ?dd ?e0 ?g] =>
+        destruct (d_cont_fixed a b c0 dd e0 g) as [[[[dfs0 p0] st2] d2]| |] eqn:Ev end;
+        cbn [bind] in H; try discriminate H.
+      inversion H; subst. clear H.
+      destruct (in_sub_scope_inv _ _ _ _ _ _ _ _ _ Hf Hok Es) as (Hty & Hc & _).
+      destruct (IH HF' Hwf2 _ _ _ _ _ _ _ _ (consumed_rd_ok_same _ _ _ _ Hok Hc) (wrap64_lt _) Ev)
+        as (Hs & Hc2 & Ep & Ech & Emax & Eidx).
+      cbn [dfs_sound FAd]. rewrite lenN_app.
+      split; [auto|]. split; [eapply consumed_app; eassumption|]. split.
+      * rewrite Ep. unfold add64. rewrite wrap64_add_l. f_equal.
+        unfold flat_fixed_len. rewrite Hfx, (spec_ser_fixed_len f v Hfx Hty). lia.
+      * repeat split; try assumption; lia.
+    + destruct (dr_read_u32 st d) as [[[off st1] d1]| |] eqn:Er; cbn [bind] in H; try discriminate H.
+      match type of H with context [d_cont_fixed ?a ?b ?c0 ?dd ?e0 ?g] =>
+        destruct (d_cont_fixed a b c0 dd e0 g) as [[[[dfs0 p0] st2] d2]| |] eqn:Ev end;
+        cbn [bind] in H; try discriminate H.
+      inversion H; subst. clear H.
+      destruct (consumed_read_u32 _ _ _ _ _ Hok Er) as (Hc & Hoff & ->).
+      assert (Hok1 : rd_ok st1 (mkDR (d_i d + 4) (d_max d) (d_chain d))).
+      { eapply consumed_rd_ok; try eassumption; cbn [d_chain d_max d_i]; try reflexivity.
+        change (lenN (le_bytes 4 off)) with 4. lia. }
+      destruct (IH HF' Hwf2 _ _ _ _ _ _ _ _ Hok1 (wrap64_lt _) Ev) as (Hs & Hc2 & Ep & Ech & Emax & Eidx).
+      cbn [d_chain d_max d_i] in *.
+      cbn [dfs_sound FAd]. rewrite lenN_app. change (lenN (le_bytes 4 off)) with 4.
+      split; [auto|]. split; [eapply consumed_app; eassumption|]. split.
+      * rewrite Ep. unfold add64. rewrite wrap64_add_l. f_equal. lia.
+      * repeat split; try assumption; lia.
+Qed.
+
+Lemma dfs_sound_length : forall fs dfs, dfs_sound fs dfs -> length dfs = length fs.
+Proof.
+  induction fs as [|f fs IH]; intros [|[v c|o] dfs] H; cbn [dfs_sound] in H; try contradiction;
+    try reflexivity; cbn [length]; f_equal; apply IH; tauto.
+Qed.
+
+Lemma nxt_fvo scope : forall fs dfs o, dfs_sound fs dfs -> fvo dfs = Some o ->
+  nxt_off scope (combine dfs (map flat_dec fs)) = o.
+Proof.
+  induction fs as [|f fs IH]; intros [|[v c|o'] dfs] o H E; cbn [dfs_sound] in H; try contradiction;
+    cbn [fvo] in E; try discriminate E; cbn [map combine nxt_off].
+  - apply IH; tauto.
+  - inversion E. reflexivity.
+Qed.
+
+Lemma d_cont_var_inv cs d scope : forall fs, Forall sd_ok fs ->
+  forall dfs i st vs cs' st', dfs_sound fs dfs -> rd_ok st d ->
+  d_cont_var (combine dfs (map flat_dec fs)) cs i scope st d = OK (vs, cs', st') ->
+  let off := nxt_off scope (combine dfs (map flat_dec fs)) in
+  has_type_fields fs vs = true /\ dfs_match fs vs off dfs /\ scope = off + var_len fs vs /\
+  consumed st st' (d_chain d) (VA fs vs off).
+Proof.
+  induction fs as [|f fs IH]; intros HF [|[v c|o] dfs] i st vs cs' st' Hs Hok H;
+    cbn [dfs_sound] in Hs; try contradiction; cbn [map combine] in *.
+  - cbn [d_cont_var] in H. inversion H; subst. cbn [nxt_off]. unfold var_len. cbn.
+    split; [reflexivity|]. split; [exact I|]. split; [lia|apply consumed_nil].
+  - pose proof (Forall_inv HF) as Hf; pose proof (Forall_inv_tail HF) as HF'.
+    destruct Hs as (Hfx & Hty & Hs). cbn [d_cont_var] in H.
+    destruct (d_cont_var (combine dfs (map flat_dec fs)) cs (S i) scope st d) as [[[vs0 cs0] st1]| |] eqn:Ev;
+      cbn [bind] in H; try discriminate H.
+    inversion H; subst. clear H.
+    destruct (IH HF' _ _ _ _ _ _ Hs Hok Ev) as (Htys & Hm & Esc & Hc). cbv zeta in *.
+    cbn [nxt_off has_type_fields dfs_match]. rewrite VA_cons, var_len_cons, Hfx, Hty.
+    split; [exact Htys|]. split; [split; [exists c; reflexivity|exact Hm]|]. split; [lia|exact Hc].
+  - pose proof (Forall_inv HF) as Hf; pose proof (Forall_inv_tail HF) as HF'.
+    destruct Hs as (Hfx & Ho & Hs). rewrite d_cont_var_cons_var in H. cbv zeta in H.
+    set (next := nxt_off scope (combine dfs (map flat_dec fs))) in *.
+    destruct (N.ltb_spec next o) as [|Hle]; [discriminate H|].
+    destruct (in_sub_scope (flat_dec f) (ct_child cs i) (next - o) st d) as [[[x c] st1]| |] eqn:Es;
+      cbn [bind] in H; try discriminate H.
+    destruct (d_cont_var (combine dfs (map flat_dec fs)) cs (S i) scope st1 d) as [[[vs0 cs0] st2]| |] eqn:Ev;
+      cbn [bind] in H; try discriminate H.
+    inversion H; subst. clear H.
+    destruct (in_sub_scope_inv _ _ _ _ _ _ _ _ _ Hf Hok Es) as (Hty & Hc & _ & _ & Hm).
+    specialize (Hm Hfx).
+    destruct (IH HF' _ _ _ _ _ _ Hs (consumed_rd_ok_same _ _ _ _ Hok Hc) Ev) as (Htys & Hmt & Esc & Hc2).
+    cbv zeta in *. fold next in Hmt, Esc, Hc2.
+    cbn [nxt_off has_type_fields dfs_match]. rewrite VA_cons, var_len_cons, Hfx, Hty.
+    replace (o + lenN (spec_ser f x)) with next by lia.
+    split; [exact Htys|]. split; [split; [reflexivity|exact Hmt]|]. split; [lia|].
+    eapply consumed_app; eassumption.
+Qed.
+
+Lemma FAd_match : forall fs vs off dfs, dfs_match fs vs off dfs -> FAd fs dfs = FA fs vs off.
+Proof.
+  induction fs as [|f fs IH]; intros [|x vs] off [|df dfs] Hm; cbn [dfs_match] in Hm;
+    try contradiction; [reflexivity|].
+  rewrite FA_cons. destruct (spec_is_fixed f).
+  - destruct Hm as [[c ->] Hm]. cbn [FAd]. rewrite (IH _ _ _ Hm). reflexivity.
+  - destruct Hm as [-> Hm]. cbn [FAd]. rewrite (IH _ _ _ Hm). reflexivity.
+Qed.
+
+Lemma dec_fixed_fields_inv c : forall fs, Forall sd_ok fs -> forallb spec_is_fixed fs = true ->
+  forall off i st d vs cs st' d', rd_ok st d ->
+  dec_fixed_fields flat_dec c fs i st d = OK (vs, cs, st', d') ->
+  has_type_fields fs vs = true /\ consumed st st' (d_chain d) (FA fs vs off) /\
+  d_chain d' = d_chain d /\ d_max d' = d_max d /\ d_i d <= d_i d' <= d_i d + lenN (FA fs vs off).
+Proof.
+  induction fs as [|f fs IH]; intros HF Hfx off i st d vs cs st' d' Hok H; cbn [dec_fixed_fields] in H.
+  - inversion H; subst. change (FA [] [] off) with (@nil byte). change (lenN (@nil byte)) with 0.
+    split; [reflexivity|]. split; [apply consumed_nil|]. repeat split; lia.
+  - pose proof (Forall_inv HF) as Hf; pose proof (Forall_inv_tail HF) as HF'.
+    cbn [forallb] in Hfx. apply andb_true_iff in Hfx. destruct Hfx as [Hfx1 Hfx2].
+    destruct (flat_dec f (ct_child c i) st d) as [[[[v c1] st1] d1]| |] eqn:Ed; cbn [bind] in H;
+      try discriminate H.
+    destruct (dec_fixed_fields flat_dec c fs (S i) st1 d1) as [[[[vs0 cs0] st2] d2]| |] eqn:Ev;
+      cbn [bind] in H; try discriminate H.
+    inversion H; subst. clear H.
+    destruct (Hf _ _ _ _ _ _ _ Hok Ed) as (Hty & Hc & _ & Ech1 & Emax1 & Eidx1).
+    assert (Hok1 : rd_ok st1 d1) by (eapply consumed_rd_ok; eassumption).
+    destruct (IH HF' Hfx2 off _ _ _ _ _ _ _ Hok1 Ev) as (Htys & Hc2 & Ech2 & Emax2 & Eidx2).
+    rewrite Ech1 in Hc2. cbn [has_type_fields]. rewrite FA_cons, Hfx1, Hty, lenN_app.
+    split; [exact Htys|]. split; [eapply consumed_app; eassumption|].
+    repeat split; try congruence; lia.
+Qed.
+
+(* --- the induction --- *)
+Lemma byte_seq_dec bs :
+  forallb (fun x => has_type x (TUint 1)) (map (fun b => VUint (N_of_byte b)) bs) = true /\
+  concat (map (spec_ser (TUint 1)) (map (fun b => VUint (N_of_byte b)) bs)) = bs /\
+  lenN (map (fun b => VUint (N_of_byte b)) bs) = lenN bs.
+Proof.
+  induction bs as [|b bs (IH1 & IH2 & IH3)]; [repeat split|].
+  cbn [map forallb concat]. rewrite IH1, IH2, !lenN_cons, IH3.
+  change (spec_ser (TUint 1) (VUint (N_of_byte b))) with [byte_of_N (N_of_byte b)].
+  rewrite BitfieldsProofs.byte_of_N_of_byte. cbn [has_type]. change (2 ^ (8 * 1)) with 256.
+  pose proof (BitfieldsProofs.N_of_byte_lt b) as Hb. apply N.ltb_lt in Hb. rewrite Hb.
+  repeat split.
+Qed.
+
+Lemma dr_scope_lt63 st d : rd_ok st d -> dr_scope d < two63.
+Proof. intros (_ & Hm & _). unfold dr_scope. lia. Qed.
+
+Lemma consumed_le_scope st st' d enc : rd_ok st d -> consumed st st' (d_chain d) enc ->
+  lenN enc <= dr_scope d.
+Proof. intros (_ & _ & _ & Hav) (_ & _ & Hle). lia. Qed.
+
+Lemma spec_ser_vector e n vs : spec_ser (TVector e n) (VSeq vs) =
+  ser_parts (map (fun x => (spec_is_fixed e, spec_ser e x)) vs).
+Proof. reflexivity. Qed.
+Lemma spec_ser_list e n vs : spec_ser (TList e n) (VSeq vs) =
+  ser_parts (map (fun x => (spec_is_fixed e, spec_ser e x)) vs).
+Proof. reflexivity. Qed.
+Lemma has_type_vector e n vs : has_type (VSeq vs) (TVector e n) =
+  (lenN vs =? n) && forallb (fun x => has_type x e) vs.
+Proof. reflexivity. Qed.
+Lemma has_type_list e n vs : has_type (VSeq vs) (TList e n) =
+  (lenN vs <=? n) && forallb (fun x => has_type x e) vs.
+Proof. reflexivity. Qed.
+
+Lemma sd_vector e n : wf_ty (TVector e n) = true -> small_params (TVector e n) = true ->
+  sd_ok e -> sd_ok (TVector e n).
+Proof.
+  intros Hwf Hsm IHe c st d v c' st' d' Hok H.
+  cbn [wf_ty small_params] in *. apply andb_true_iff in Hwf. destruct Hwf as [Hn Hwe].
+  apply andb_true_iff in Hsm. destruct Hsm as [Hn56 _]. apply N.leb_le in Hn, Hn56.
+  change (2 ^ 56) with 72057594037927936 in Hn56.
+  rewrite flat_dec_vector in H. unfold dec_post. cbn [spec_is_fixed].
+  destruct (is_byte_elem e) eqn:Eb.
+  { apply is_byte_elem_eq in Eb. subst e.
+    destruct (d_bytes c n st d) as [[[[bs c0] st1] d1]| |] eqn:Er; cbn [bind] in H; try discriminate H.
+    inversion H; subst. clear H.
+    destruct (consumed_d_bytes _ _ _ _ _ _ _ _ Hok Er) as (Hc & El & ->).
+    destruct (byte_seq_dec bs) as (Hall & Eenc & Elen).
+    rewrite has_type_vector, spec_ser_vector. change (spec_is_fixed (TUint 1)) with true.
+    rewrite series_fixed_enc, Eenc.
+    rewrite Elen, El, N.eqb_refl, Hall. cbn [d_chain d_max d_i].
+    split; [reflexivity|]. split; [exact Hc|]. split; [discriminate|]. repeat split; lia. }
+  cbv zeta in H. rewrite nonneg_fsz in H by exact Hwe.
+  destruct (spec_is_fixed e) eqn:Hfx.
+  - destruct (d_vector_fixed (flat_dec e) c 0 (nat_of n) (flat_fixed_len e) st d) as [[[vs cs] st1]| |] eqn:Ev;
+      cbn [bind] in H; try discriminate H.
+    inversion H; subst. clear H.
+    destruct (d_vector_fixed_inv _ e _ _ _ IHe _ _ _ _ _ _ Hok Ev) as (Elen & Hall & Hc).
+    rewrite has_type_vector, spec_ser_vector. rewrite Hfx, series_fixed_enc, Hall.
+    replace (lenN vs) with n by (unfold lenN, nat_of in *; lia). rewrite N.eqb_refl.
+    split; [reflexivity|]. split; [exact Hc|]. split; [discriminate|]. repeat split; lia.
+  - destruct (d_read_offsets (nat_of n) st d) as [[[offs st1] d1]| |] eqn:Er; cbn [bind] in H;
+      try discriminate H.
+    destruct (negb (hd (mul64 4 n) offs =? mul64 4 n)) eqn:Ehd; [discriminate H|].
+    apply negb_false_iff, N.eqb_eq in Ehd.
+    destruct (d_var_items (fun _ => flat_dec e) c 0 offs (dr_scope d) 0 true st1 d1) as [[[vs cs] st2]| |] eqn:Ev;
+      cbn [bind] in H; try discriminate H.
+    inversion H; subst. clear H.
+    destruct (d_read_offsets_inv _ _ _ _ _ _ Hok Er) as (Elo & HFo & Hc1 & ->).
+    assert (Ell : lenN (flat_map (le_bytes 4) offs) = 4 * n).
+    { rewrite lenN_flat_map_u32. unfold lenN. rewrite Elo. unfold nat_of. lia. }
+    assert (Hok1 : rd_ok st1 (mkDR (d_i d + 4 * N.of_nat (nat_of n)) (d_max d) (d_chain d))).
+    { eapply consumed_rd_ok; try eassumption; cbn [d_chain d_max d_i]; try reflexivity.
+      rewrite Ell. unfold nat_of. lia. }
+    destruct (d_var_items_inv _ e _ _ _ _ IHe Hfx (dr_scope_lt63 _ _ Hok) _ _ _ _ _ _ _ Hok1 HFo Ev)
+      as (Hall & Eoffs & Esc & Hc2).
+    cbn [d_chain] in Hc2.
+    assert (Elv : lenN vs = n).
+    { apply (f_equal (@length N)) in Eoffs. rewrite offs_from_length, map_length, Elo in Eoffs.
+      unfold lenN, nat_of in *. lia. }
+    assert (E4 : hd (dr_scope d) offs = 4 * n).
+    { rewrite mul64_small in Ehd by (unfold two64; lia).
+      destruct offs as [|o offs']; [cbn [length] in Elo; unfold nat_of in Elo; lia|exact Ehd]. }
+    rewrite E4 in *.
+    rewrite has_type_vector, spec_ser_vector. rewrite Hfx, series_var_enc, Hall.
+    rewrite Elv, N.eqb_refl, <- Eoffs, lenN_app, Ell. cbn [d_chain d_max d_i].
+    split; [reflexivity|]. split; [eapply consumed_app; eassumption|]. split; [intros _; lia|].
+    repeat split; try lia. unfold nat_of. lia.
+Qed.
+
+Lemma sd_list e n : wf_ty (TList e n) = true -> sd_ok e -> sd_ok (TList e n).
+Proof.
+  intros Hwe IHe c st d v c' st' d' Hok H. cbn [wf_ty] in Hwe.
+  rewrite flat_dec_list in H. cbv zeta in H. unfold dec_post. cbn [spec_is_fixed].
+  destruct (is_byte_elem e) eqn:Eb.
+  { apply is_byte_elem_eq in Eb. subst e.
+    destruct (N.ltb_spec n (dr_scope d)) as [|Hle]; [discriminate H|].
+    destruct (d_bytes c (dr_scope d) st d) as [[[[bs c0] st1] d1]| |] eqn:Er; cbn [bind] in H;
+      try discriminate H.
+    inversion H; subst. clear H.
+    destruct (consumed_d_bytes _ _ _ _ _ _ _ _ Hok Er) as (Hc & El & ->).
+    destruct (byte_seq_dec bs) as (Hall & Eenc & Elen).
+    rewrite has_type_list, spec_ser_list. change (spec_is_fixed (TUint 1)) with true.
+    rewrite series_fixed_enc, Eenc, Elen, El, Hall. cbn [d_chain d_max d_i].
+    split; [apply andb_true_iff; split; [apply N.leb_le; exact Hle|reflexivity]|].
+    split; [exact Hc|]. split; [reflexivity|]. repeat split; lia. }
+  destruct (is_root_elem e) eqn:Ert.
+  { apply is_root_elem_eq in Ert. subst e.
+    destruct (negb (dr_scope d mod 32 =? 0)) eqn:Em; [discriminate H|].
+    apply negb_false_iff, N.eqb_eq in Em.
+    destruct (N.ltb_spec n (dr_scope d / 32)) as [|Hle]; [discriminate H|].
+    destruct (dec_roots_inv _ _ _ _ _ _ _ Hok H) as (bss & -> & Elen & HFb & Hc & ->).
+    rewrite has_type_list, spec_ser_list. change (spec_is_fixed TRoot) with true.
+    rewrite series_fixed_enc.
+    assert (Eenc : concat (map (spec_ser TRoot) (map VBytes bss)) = concat bss).
+    { rewrite map_map. f_equal. change (fun x => spec_ser TRoot (VBytes x)) with (fun x : list byte => x).
+      apply map_id. }
+    assert (El : lenN (concat bss) = dr_scope d).
+    { rewrite lenN_concat, (sumN_map_const _ 32) by exact HFb. unfold lenN. rewrite Elen.
+      unfold nat_of. lia. }
+    assert (Elm : lenN (map VBytes bss) = dr_scope d / 32).
+    { unfold lenN. rewrite map_length, Elen. unfold nat_of. lia. }
+    assert (Hall : forallb (fun x => has_type x TRoot) (map VBytes bss) = true).
+    { apply forallb_forall. intros x Hin. apply in_map_iff in Hin. destruct Hin as (bs & <- & Hin).
+      rewrite Forall_forall in HFb. cbn [has_type]. apply N.eqb_eq. apply HFb, Hin. }
+    rewrite Eenc, El, Elm, Hall. cbn [d_chain d_max d_i].
+    split; [apply andb_true_iff; split; [apply N.leb_le; exact Hle|reflexivity]|].
+    split; [exact Hc|]. split; [reflexivity|]. repeat split; try lia. unfold nat_of. lia. }
+  destruct (N.eqb_spec (dr_scope d) 0) as [E0|E0].
+  { inversion H; subst. clear H. rewrite has_type_list, spec_ser_list. cbn [map forallb].
+    change (ser_parts []) with (@nil byte). change (lenN (@nil val)) with 0.
+    change (lenN (@nil byte)) with 0.
+    split; [apply andb_true_iff; split; [apply N.leb_le; lia|reflexivity]|].
+    split; [apply consumed_nil|]. split; [intros _; lia|]. repeat split; lia. }
+  rewrite nonneg_fsz in H by exact Hwe.
+  destruct (spec_is_fixed e) eqn:Hfx.
+  - destruct (negb (dr_scope d mod flat_fixed_len e =? 0)) eqn:Em; [discriminate H|].
+    apply negb_false_iff, N.eqb_eq in Em.
+    destruct (N.ltb_spec n (dr_scope d / flat_fixed_len e)) as [|Hle]; [discriminate H|].
+    destruct (d_vector_fixed (flat_dec e) CFresh 0 (nat_of (dr_scope d / flat_fixed_len e))
+                (flat_fixed_len e) st d) as [[[vs cs] st1]| |] eqn:Ev; cbn [bind] in H; try discriminate H.
+    inversion H; subst v c' st' d'. clear H.
+    destruct (d_vector_fixed_inv _ e _ _ _ IHe _ _ _ _ _ _ Hok Ev) as (Elen & Hall & Hc).
+    assert (Hpos : 1 <= flat_fixed_len e).
+    { unfold flat_fixed_len. rewrite Hfx. apply wf_fixed_len_pos; assumption. }
+    assert (Elv : lenN vs = dr_scope d / flat_fixed_len e) by (unfold lenN, nat_of in *; lia).
+    assert (El : lenN (concat (map (spec_ser e) vs)) = dr_scope d).
+    { rewrite (lenN_concat_const (spec_ser e) vs _ (fixed_elems_len e vs Hfx Hall)), Elv.
+      pose proof (N.div_mod (dr_scope d) (flat_fixed_len e)). lia. }
+    rewrite has_type_list, spec_ser_list. rewrite Hfx, series_fixed_enc, Hall, Elv, El.
+    split; [apply andb_true_iff; split; [apply N.leb_le; exact Hle|reflexivity]|].
+    split; [exact Hc|]. split; [reflexivity|]. repeat split; lia.
+  - destruct (dr_read_u32 st d) as [[[first st1] d1]| |] eqn:Er; cbn [bind] in H; try discriminate H.
+    destruct (negb (first mod 4 =? 0)) eqn:Em; [discriminate H|].
+    apply negb_false_iff, N.eqb_eq in Em.
+    destruct (N.ltb_spec n (first / 4)) as [|Hle]; [discriminate H|].
+    destruct (N.eqb_spec first 0) as [|Hf0]; [discriminate H|]. cbn [orb] in H.
+    destruct (N.ltb_spec (dr_scope d) first) as [|Hfs]; [discriminate H|].
+    destruct (d_read_offsets (nat_of (first / 4 - 1)) st1 d1) as [[[offs st2] d2]| |] eqn:Ero;
+      cbn [bind] in H; try discriminate H.
+    destruct (d_var_items (fun _ => flat_dec e) CFresh 0 (first :: offs) (dr_scope d) 0 false st2 d2)
+      as [[[vs cs] st3]| |] eqn:Ev; cbn [bind] in H; try discriminate H.
+    inversion H; subst. clear H.
+    destruct (consumed_read_u32 _ _ _ _ _ Hok Er) as (Hc0 & Hfirst & ->).
+    assert (Hok1 : rd_ok st1 (mkDR (d_i d + 4) (d_max d) (d_chain d))).
+    { eapply consumed_rd_ok; try eassumption; cbn [d_chain d_max d_i]; try reflexivity.
+      change (lenN (le_bytes 4 first)) with 4. lia. }
+    destruct (d_read_offsets_inv _ _ _ _ _ _ Hok1 Ero) as (Elo & HFo & Hc1 & ->).
+    cbn [d_chain d_max d_i] in *.
+    assert (Ell : lenN (flat_map (le_bytes 4) offs) = 4 * (first / 4 - 1)).
+    { rewrite lenN_flat_map_u32. unfold lenN. rewrite Elo. unfold nat_of. lia. }
+    set (d2 := mkDR (d_i d + 4 + 4 * N.of_nat (nat_of (first / 4 - 1))) (d_max d) (d_chain d)) in *.
+    assert (Hok2 : rd_ok st2 d2).
+    { eapply (consumed_rd_ok st1 st2 (mkDR (d_i d + 4) (d_max d) (d_chain d))); try eassumption;
+        unfold d2; cbn [d_chain d_max d_i]; try reflexivity. rewrite Ell. unfold nat_of. lia. }
+    assert (HFo' : Forall (fun o => o < two32) (first :: offs)) by (constructor; assumption).
+    destruct (d_var_items_inv _ e _ _ _ _ IHe Hfx (dr_scope_lt63 _ _ Hok) _ _ _ _ _ _ _ Hok2 HFo' Ev)
+      as (Hall & Eoffs & Esc & Hc2).
+    unfold d2 in Hc2. cbn [d_chain hd] in *.
+    assert (Elv : lenN vs = first / 4).
+    { apply (f_equal (@length N)) in Eoffs. rewrite offs_from_length, map_length in Eoffs.
+      cbn [length] in Eoffs. rewrite Elo in Eoffs. unfold lenN, nat_of in *. lia. }
+    assert (E4 : first = 4 * lenN vs) by lia.
+    rewrite has_type_list, spec_ser_list. rewrite Hfx, series_var_enc, Hall.
+    rewrite <- E4, <- Eoffs. cbn [flat_map]. rewrite !lenN_app, Ell. change (lenN (le_bytes 4 first)) with 4.
+    split; [apply andb_true_iff; split; [apply N.leb_le; lia|reflexivity]|].
+    split; [rewrite <- app_assoc; eapply consumed_app; [exact Hc0|eapply consumed_app; eassumption]|].
+    split; [intros _; lia|]. unfold d2. cbn [d_chain d_max d_i]. repeat split; try lia. unfold nat_of. lia.
+Qed.
+
+Lemma VA_nil_all_fixed fs vs off : forallb spec_is_fixed fs = true -> VA fs vs off = [].
+Proof.
+  intros H. apply lenN_nil_iff. rewrite lenN_VA. apply var_len_all_fixed, H.
+Qed.
+
+Lemma VA_indep : forall fs vs off off', VA fs vs off = VA fs vs off'.
+Proof.
+  induction fs as [|f fs IH]; intros [|x vs] off off'; try reflexivity.
+  rewrite !VA_cons. destruct (spec_is_fixed f); [apply IH|]. f_equal. apply IH.
+Qed.
+
+Lemma sd_cont fs : wf_ty (TContainer fs) = true -> Forall sd_ok fs -> sd_ok (TContainer fs).
+Proof.
+  intros Hwf IHfs c st d v c' st' d' Hok H.
+  cbn [wf_ty] in Hwf. apply andb_true_iff in Hwf. destruct Hwf as [_ Hwfs].
+  rewrite flat_dec_cont in H. unfold dec_post. cbn [spec_is_fixed].
+  destruct (forallb spec_is_fixed fs) eqn:Hfx.
+  - destruct (dec_fixed_fields flat_dec c fs 0 st d) as [[[[vs cs] st1] d1]| |] eqn:Ev; cbn [bind] in H;
+      try discriminate H.
+    inversion H; subst. clear H.
+    set (FL := sumN (map part_fixed_size (ser_fields fs vs))).
+    destruct (dec_fixed_fields_inv c fs IHfs Hfx FL _ _ _ _ _ _ _ Hok Ev) as (Htys & Hc & Ech & Emax & Eidx).
+    rewrite has_type_cont, spec_ser_cont, ser_parts_FA_VA. fold FL.
+    rewrite (VA_nil_all_fixed fs vs FL Hfx), app_nil_r.
+    split; [exact Htys|]. split; [exact Hc|]. split; [discriminate|]. repeat split; try assumption; lia.
+  - cbv zeta in H.
+    destruct (d_cont_fixed (map (fun f => (flat_fixed_len f, flat_dec f)) fs) c 0 0 st d)
+      as [[[[dfs prev] st1] d1]| |] eqn:Ev; cbn [bind] in H; try discriminate H.
+    rewrite first_var_off_fvo in H. destruct (fvo dfs) as [o0|] eqn:Efvo; [|discriminate H].
+    destruct (negb (prev =? o0)) eqn:Ep; [discriminate H|]. apply negb_false_iff, N.eqb_eq in Ep.
+    destruct (d_cont_var (combine dfs (map flat_dec fs)) c 0 (dr_scope d) st1 d1) as [[[vs cs] st2]| |] eqn:Ev2;
+      cbn [bind] in H; try discriminate H.
+    inversion H; subst v c' st' d'. clear H.
+    destruct (d_cont_fixed_inv c fs IHfs Hwfs _ _ _ _ _ _ _ _ Hok two64_pos Ev)
+      as (Hs & Hc1 & Eprev & Ech & Emax & Eidx).
+    assert (Hok1 : rd_ok st1 d1) by (eapply consumed_rd_ok; eassumption).
+    destruct (d_cont_var_inv c d1 (dr_scope d) fs IHfs _ _ _ _ _ _ Hs Hok1 Ev2) as (Htys & Hm & Esc & Hc2).
+    cbv zeta in *. rewrite (nxt_fvo (dr_scope d) fs dfs o0 Hs Efvo) in *.
+    rewrite (FAd_match fs vs o0 dfs Hm) in *. rewrite Ech in Hc2.
+    pose proof (consumed_le_scope _ _ _ _ Hok Hc1) as Hle. pose proof (dr_scope_lt63 _ _ Hok) as H63.
+    rewrite N.add_0_l, wrap64_small in Eprev by (unfold two63, two64 in *; lia).
+    rewrite lenN_FA in *.
+    set (FL := sumN (map part_fixed_size (ser_fields fs vs))) in *.
+    rewrite has_type_cont, spec_ser_cont, ser_parts_FA_VA. fold FL. subst o0.
+    rewrite lenN_app, lenN_FA, lenN_VA. fold FL.
+    rewrite Eprev in Hc1, Hc2, Esc.
+    split; [exact Htys|]. split; [eapply consumed_app; eassumption|]. split; [intros _; lia|].
+    repeat split; try assumption; lia.
+Qed.
+
+Lemma sd_union none opts : wf_ty (TUnion none opts) = true -> Forall sd_ok opts ->
+  sd_ok (TUnion none opts).
+Proof.
+  intros Hwf IHopts c st d v c' st' d' Hok H.
+  cbn [wf_ty] in Hwf. apply andb_true_iff in Hwf. destruct Hwf as [_ Hwfs].
+  rewrite flat_dec_union in H. unfold dec_post. cbn [spec_is_fixed].
+  destruct (dr_read_byte st d) as [[[sel st1] d1]| |] eqn:Er; cbn [bind] in H; try discriminate H.
+  destruct (consumed_read_byte _ _ _ _ _ Hok Er) as (Hc0 & Hsel & ->).
+  pose proof (consumed_le_scope _ _ _ _ Hok Hc0) as Hle. change (lenN [byte_of_N sel]) with 1 in Hle.
+  assert (Hok1 : rd_ok st1 (mkDR (d_i d + 1) (d_max d) (d_chain d))).
+  { eapply consumed_rd_ok; try eassumption; cbn [d_chain d_max d_i]; try reflexivity.
+    change (lenN [byte_of_N sel]) with 1. lia. }
+  pose proof Hok as (Hi & _ & _ & _).
+  destruct (none && (sel =? 0)) eqn:Ens.
+  - destruct (negb (dr_scope (mkDR (d_i d + 1) (d_max d) (d_chain d)) =? 0)) eqn:Es; [discriminate H|].
+    apply negb_false_iff, N.eqb_eq in Es. inversion H; subst. clear H.
+    apply andb_true_iff in Ens. destruct Ens as [-> Es0]. apply N.eqb_eq in Es0. subst sel.
+    rewrite has_type_union, spec_ser_union. cbn [andb]. rewrite N.eqb_refl.
+    change (lenN [byte_of_N 0]) with 1. unfold dr_scope in *. cbn [d_chain d_max d_i] in *.
+    split; [reflexivity|]. split; [exact Hc0|]. split; [intros _; lia|]. repeat split; lia.
+  - rewrite pick_ty_nth_error in H.
+    destruct (nth_error opts (nat_of (if none then sel - 1 else sel))) as [o|] eqn:Hnth; [|discriminate H].
+    unfold dec_union_opt in H.
+    destruct (negb (flat_fixed_len o =? 0) && negb (flat_fixed_len o =? dr_scope (mkDR (d_i d + 1) (d_max d) (d_chain d))))
+      eqn:Eg; [discriminate H|].
+    destruct (flat_dec o CFresh st1 (mkDR (d_i d + 1) (d_max d) (d_chain d))) as [[[[v0 c0] st2] d2]| |] eqn:Ed;
+      cbn [bind] in H; try discriminate H.
+    inversion H; subst. clear H.
+    assert (Hin : In o opts) by (eapply nth_error_In; eassumption).
+    rewrite Forall_forall in IHopts. rewrite forallb_forall in Hwfs.
+    destruct (IHopts o Hin _ _ _ _ _ _ _ Hok1 Ed) as (Hty & Hc & Hsc & Ech & Emax & Eidx).
+    cbn [d_chain d_max d_i] in *.
+    rewrite has_type_union, spec_ser_union, Ens, !pick_ty_nth_error, Hnth.
+    assert (El : lenN (spec_ser o v0) = dr_scope (mkDR (d_i d + 1) (d_max d) (d_chain d))).
+    { destruct (spec_is_fixed o) eqn:Hfo; [|apply Hsc; reflexivity].
+      rewrite nonneg_fsz, Hfo in Eg by auto. cbn [andb] in Eg. apply negb_false_iff, N.eqb_eq in Eg.
+      rewrite <- Eg. unfold flat_fixed_len. rewrite Hfo. apply spec_ser_fixed_len; assumption. }
+    unfold dr_scope in *. cbn [d_i d_max] in *. rewrite lenN_cons.
+    split; [exact Hty|].
+    split; [change (byte_of_N sel :: spec_ser o v0) with ([byte_of_N sel] ++ spec_ser o v0);
+            eapply consumed_app; eassumption|].
+    split; [intros _; lia|]. repeat split; try assumption; lia.
+Qed.
+
+Lemma flat_dec_sd : forall t, wf_ty t = true -> small_params t = true -> sd_ok t.
+Proof.
+  induction t as [w| |n| |n|n|e n IHe|e n IHe|fs IHfs|none opts IHopts] using ty_ind';
+    intros Hwf Hsm.
+  - (* uint *)
+    intros c st d v c' st' d' Hok H. cbn [flat_dec] in H.
+    destruct (dr_read st d w) as [[[bs st1] d1]| |] eqn:Er; cbn [bind] in H; try discriminate H.
+    inversion H; subst. clear H.
+    destruct (consumed_read _ _ _ _ _ _ Hok Er) as (Hc & El & ->).
+    assert (Elen : length bs = nat_of w) by (unfold lenN, nat_of in *; lia).
+    unfold dec_post. cbn [has_type spec_ser spec_is_fixed d_chain d_max d_i].
+    rewrite <- Elen, le_bytes_le_val, El.
+    split; [apply N.ltb_lt; rewrite <- pow256, <- Elen; apply le_val_bound|].
+    split; [exact Hc|]. split; [discriminate|]. repeat split; lia.
+  - (* bool *)
+    intros c st d v c' st' d' Hok H. cbn [flat_dec] in H.
+    destruct (dr_read_byte st d) as [[[b st1] d1]| |] eqn:Er; cbn [bind] in H; try discriminate H.
+    destruct (N.ltb_spec 1 b) as [|Hb]; [discriminate H|]. inversion H; subst. clear H.
+    destruct (consumed_read_byte _ _ _ _ _ Hok Er) as (Hc & _ & ->).
+    unfold dec_post. cbn [has_type spec_ser spec_is_fixed d_chain d_max d_i].
+    assert (Eb : byte_of_N (if b =? 1 then 1 else 0) = byte_of_N b).
+    { destruct (N.eqb_spec b 1) as [->|Hn]; [reflexivity|]. replace b with 0 by lia. reflexivity. }
+    rewrite Eb. change (lenN [byte_of_N b]) with 1.
+    split; [reflexivity|]. split; [exact Hc|]. split; [discriminate|]. repeat split; lia.
+  - (* bytesN *)
+    intros c st d v c' st' d' Hok H. cbn [flat_dec] in H.
+    destruct (d_bytes c n st d) as [[[[bs c0] st1] d1]| |] eqn:Er; cbn [bind] in H; try discriminate H.
+    inversion H; subst. clear H.
+    destruct (consumed_d_bytes _ _ _ _ _ _ _ _ Hok Er) as (Hc & El & ->).
+    unfold dec_post. cbn [has_type spec_ser spec_is_fixed d_chain d_max d_i]. fold (lenN bs). rewrite El.
+    split; [apply N.eqb_refl|]. split; [exact Hc|]. split; [discriminate|]. repeat split; lia.
+  - (* root *)
+    intros c st d v c' st' d' Hok H. cbn [flat_dec] in H.
+    destruct (dr_read st d 32) as [[[bs st1] d1]| |] eqn:Er; cbn [bind] in H; try discriminate H.
+    inversion H; subst. clear H.
+    destruct (consumed_read _ _ _ _ _ _ Hok Er) as (Hc & El & ->).
+    unfold dec_post. cbn [has_type spec_ser spec_is_fixed d_chain d_max d_i]. fold (lenN bs). rewrite El.
+    split; [reflexivity|]. split; [exact Hc|]. split; [discriminate|]. repeat split; lia.
+  - (* bitvector *)
+    intros c st d v c' st' d' Hok H. cbn [flat_dec small_params] in *.
+    apply N.leb_le in Hsm. change (2 ^ 56) with 72057594037927936 in Hsm.
+    destruct (d_bytes c (N.shiftr (wrap64 (n + 7)) 3) st d) as [[[[bs c0] st1] d1]| |] eqn:Er;
+      cbn [bind] in H; try discriminate H.
+    destruct (bitvector_check bs n) as [[]| |] eqn:Ec; cbn [bind] in H; try discriminate H.
+    inversion H; subst. clear H.
+    destruct (consumed_d_bytes _ _ _ _ _ _ _ _ Hok Er) as (Hc & El & ->).
+    assert (Hn : n < 2 ^ 64 - 7) by (change (2 ^ 64 - 7) with 18446744073709551609; lia).
+    destruct (BitfieldsProofs.bitvector_check_sound bs n Hn Ec) as (bits & Ebits & ->).
+    change (lenN bits = n) in Ebits. subst n.
+    unfold dec_post. cbn [has_type spec_ser spec_is_fixed d_chain d_max d_i].
+    rewrite bytes_to_bits_exact. fold (lenN bits). rewrite N.eqb_refl.
+    split; [reflexivity|]. split; [exact Hc|]. split; [discriminate|]. repeat split; lia.
+  - (* bitlist *)
+    intros c st d v c' st' d' Hok H. cbn [flat_dec small_params] in *.
+    apply N.leb_le in Hsm. change (2 ^ 56) with 72057594037927936 in Hsm.
+    destruct (N.ltb_spec (N.shiftr n 3 + 1) (dr_scope d)) as [|Hle]; [discriminate H|].
+    destruct (d_bytes c (dr_scope d) st d) as [[[[bs c0] st1] d1]| |] eqn:Er;
+      cbn [bind] in H; try discriminate H.
+    destruct (bitlist_check bs n) as [[]| |] eqn:Ec; cbn [bind] in H; try discriminate H.
+    inversion H; subst. clear H.
+    destruct (consumed_d_bytes _ _ _ _ _ _ _ _ Hok Er) as (Hc & El & ->).
+    assert (Hn : n < 2 ^ 64) by (change (2 ^ 64) with 18446744073709551616; lia).
+    destruct (BitfieldsProofs.bitlist_check_sound bs n Hn Ec) as (bits & Hbits & ->).
+    change (lenN bits <= n) in Hbits.
+    assert (Hb : lenN bits < 2 ^ 64) by lia.
+    pose proof (BitfieldsProofs.bitlist_len_pack bits Hb) as Elen.
+    change (bitlist_len (bits_to_bytes (bits ++ [true])) = lenN bits) in Elen.
+    unfold BitfieldsProofs.pack_bitlist in *.
+    unfold dec_post. cbn [has_type spec_ser spec_is_fixed d_chain d_max d_i]. unfold ser_bitlist.
+    rewrite Elen, bytes_to_bits_bitlist. fold (lenN bits).
+    split; [apply N.leb_le; exact Hbits|]. split; [exact Hc|]. split; [intros _; exact El|].
+    repeat split; lia.
+  - cbn [wf_ty small_params] in *. pose proof Hwf as Hwf'. pose proof Hsm as Hsm'.
+    apply andb_true_iff in Hwf'. destruct Hwf' as [_ Hwe].
+    apply andb_true_iff in Hsm'. destruct Hsm' as [_ Hse].
+    apply sd_vector; auto.
+  - cbn [wf_ty small_params] in *. apply andb_true_iff in Hsm. destruct Hsm as [_ Hse].
+    apply sd_list; auto.
+  - apply sd_cont; [exact Hwf|]. cbn [wf_ty small_params] in *.
+    apply andb_true_iff in Hwf. destruct Hwf as [_ Hwfs].
+    rewrite Forall_forall in *. rewrite forallb_forall in Hwfs, Hsm. auto.
+  - apply sd_union; [exact Hwf|]. cbn [wf_ty small_params] in *.
+    apply andb_true_iff in Hwf. destruct Hwf as [_ Hwfs].
+    rewrite Forall_forall in *. rewrite forallb_forall in Hwfs, Hsm. auto.
+Qed.
+
+Lemma flat_decode_sound t c bs v c' :
+  wf_ty t = true -> small_params t = true -> lenN bs < 2 ^ 63 ->
+  flat_decode t c bs = OK (v, c') ->
+  has_type v t = true /\
+  exists rest, bs = spec_ser t v ++ rest /\ (spec_is_fixed t = false -> rest = []).
+Proof.
+  intros Hwf Hsm Hlen H. change (2 ^ 63) with two63 in Hlen.
+  unfold flat_decode, new_reader in H.
+  destruct (flat_dec t c (mkRS bs [lenN bs]) (mkDR 0 (lenN bs) [O])) as [[[[v0 c0] st'] d']| |] eqn:Ed;
+    cbn [bind] in H; try discriminate H.
+  inversion H; subst. clear H.
+  destruct (new_reader_ok bs Hlen) as [Hok _].
+  destruct (flat_dec_sd t Hwf Hsm _ _ _ _ _ _ _ Hok Ed) as (Hty & ((rest & Er) & _ & _) & Hsc & _).
+  cbn [r_stream] in Er. split; [exact Hty|]. exists rest. split; [exact Er|].
+  intros Hv. specialize (Hsc Hv). unfold dr_scope in Hsc. cbn [d_i d_max] in Hsc.
+  apply (f_equal (@lenN byte)) in Er. rewrite lenN_app in Er. apply lenN_nil_iff. lia.
+Qed.
+
+Lemma C10_canonical_lemma t c bs v c' :
+  wf_ty t = true -> small_params t = true -> lenN bs < 2 ^ 63 ->
+  spec_is_fixed t = false ->
+  flat_decode t c bs = OK (v, c') -> has_type v t = true /\ bs = spec_ser t v.
+Proof.
+  intros Hwf Hsm Hlen Hv H.
+  destruct (flat_decode_sound t c bs v c' Hwf Hsm Hlen H) as (Hty & rest & E & Hr).
+  rewrite (Hr Hv), app_nil_r in E. auto.
+Qed.
+
+Lemma C10_canonical_fixed_lemma t c bs v c' :
+  wf_ty t = true -> small_params t = true -> lenN bs < 2 ^ 63 ->
+  spec_is_fixed t = true -> lenN bs = spec_fixed_len t ->
+  flat_decode t c bs = OK (v, c') -> has_type v t = true /\ bs = spec_ser t v.
+Proof.
+  intros Hwf Hsm Hlen Hfx Hl H.
+  destruct (flat_decode_sound t c bs v c' Hwf Hsm Hlen H) as (Hty & rest & E & _).
+  split; [exact Hty|]. pose proof (spec_ser_fixed_len t v Hfx Hty) as El.
+  assert (rest = []) as ->.
+  { apply (f_equal (@lenN byte)) in E. rewrite lenN_app in E. apply lenN_nil_iff. lia. }
+  rewrite app_nil_r in E. exact E.
+Qed.
+
+(* a fixed-size value at the top level reads its size and ignores what follows *)
+Lemma C10_fixed_prefix_lemma t c bs v c' :
+  wf_ty t = true -> small_params t = true -> lenN bs < 2 ^ 63 ->
+  flat_decode t c bs = OK (v, c') ->
+  has_type v t = true /\ exists rest, bs = spec_ser t v ++ rest.
+Proof.
+  intros Hwf Hsm Hlen H.
+  destruct (flat_decode_sound t c bs v c' Hwf Hsm Hlen H) as (Hty & rest & E & _). eauto.
+Qed.
+
+Lemma C10_reencode_lemma t c bs v c' :
+  wf_ty t = true -> small_params t = true -> lenN bs < 2 ^ 32 ->
+  spec_is_fixed t = false ->
+  flat_decode t c bs = OK (v, c') -> flat_enc t v = OK bs.
+Proof.
+  intros Hwf Hsm Hlen Hv H.
+  assert (Hlen' : lenN bs < 2 ^ 63).
+  { change (2 ^ 32) with 4294967296 in Hlen. change (2 ^ 63) with 9223372036854775808. lia. }
+  destruct (C10_canonical_lemma t c bs v c' Hwf Hsm Hlen' Hv H) as [Hty ->].
+  apply C09_encode_spec_lemma; assumption.
+Qed.
+
+Lemma C10_reencode_total_lemma t c bs v c' :
+  wf_ty t = true -> small_params t = true -> lenN bs < 2 ^ 63 ->
+  spec_is_fixed t = false ->
+  flat_decode t c bs = OK (v, c') ->
+  flat_enc t v = OK bs \/ (flat_enc t v = Panic /\ 2 ^ 32 <= lenN bs).
+Proof.
+  intros Hwf Hsm Hlen Hv H.
+  destruct (C10_canonical_lemma t c bs v c' Hwf Hsm Hlen Hv H) as [Hty ->].
+  apply C09_encode_total_lemma; try assumption.
+  change (2 ^ 63) with 9223372036854775808 in Hlen. change (2 ^ 64) with 18446744073709551616. lia.
+Qed.
+
+Lemma C10_reencode_fixed_lemma t c bs v c' :
+  wf_ty t = true -> small_params t = true -> lenN bs < 2 ^ 32 ->
+  spec_is_fixed t = true -> lenN bs = spec_fixed_len t ->
+  flat_decode t c bs = OK (v, c') -> flat_enc t v = OK bs.
+Proof.
+  intros Hwf Hsm Hlen Hfx Hl H.
+  assert (Hlen' : lenN bs < 2 ^ 63).
+  { change (2 ^ 32) with 4294967296 in Hlen. change (2 ^ 63) with 9223372036854775808. lia. }
+  destruct (C10_canonical_fixed_lemma t c bs v c' Hwf Hsm Hlen' Hfx Hl H) as [Hty ->].
+  apply C09_encode_spec_lemma; assumption.
+Qed.
+
+(* ------------------------------------------------------------------------------------ *)
+(** * 9. Examples: the hypotheses are satisfiable by a non-trivial input *)
+
+(* fixed and variable fields, a list of variable-size items, a bitlist, a union with a None option,
+   a vector of bitvectors, a byte list *)
+Definition ex_codec_ty : ty :=
+  TContainer [TUint 8; TList (TList (TUint 2) 4) 3; TBitlist 10;
+              TUnion true [TUint 4; TBytes 3]; TVector (TBitvector 9) 2; TList (TUint 1) 5;
+              TVector (TList (TUint 1) 3) 2].
+Definition ex_codec_val : val :=
+  VCont [VUint 7; VSeq [VSeq [VUint 1; VUint 2]; VSeq []; VSeq [VUint 515]];
+         VBits [true; false; true];
+         VUnion 2 (Some (VBytes [Byte.x01; Byte.x02; Byte.x03]));
+         VSeq [VBits [true;false;false;false;false;false;false;false;true];
+               VBits [false;true;false;false;false;false;false;false;false]];
+         VSeq [VUint 9; VUint 8];
+         VSeq [VSeq [VUint 1]; VSeq []]].
+(* a destination that was used before: longer / shorter / larger-capacity byte slices *)
+Definition ex_codec_dst : ctree :=
+  CNodes [CFresh; CFresh; CBytes 7 16; CFresh; CNodes [CBytes 1 1; CBytes 5 8]; CBytes 0 1; CFresh].
+
+Example ex_codec_hyps :
+  wf_ty ex_codec_ty = true /\ small_params ex_codec_ty = true /\
+  has_type ex_codec_val ex_codec_ty = true /\
+  lenN (spec_ser ex_codec_ty ex_codec_val) < 2 ^ 32 /\
+  lenN (spec_ser ex_codec_ty ex_codec_val) < 2 ^ 63 /\
+  spec_is_fixed ex_codec_ty = false.
+Proof. vm_compute. repeat split. Qed.
+
+Example ex_codec_values :
+  flat_enc ex_codec_ty ex_codec_val = OK (spec_ser ex_codec_ty ex_codec_val) /\
+  flat_len ex_codec_ty ex_codec_val = lenN (spec_ser ex_codec_ty ex_codec_val) /\
+  (exists c', flat_decode ex_codec_ty CFresh (spec_ser ex_codec_ty ex_codec_val) = OK (ex_codec_val, c')) /\
+  (exists c', flat_decode ex_codec_ty ex_codec_dst (spec_ser ex_codec_ty ex_codec_val) = OK (ex_codec_val, c')).
+Proof.
+  split; [vm_compute; reflexivity|]. split; [vm_compute; reflexivity|].
+  split; eexists; vm_compute; reflexivity.
+Qed.
+
+(* C10: an accepted input (hypotheses of C10_canonical), and rejected non-canonical inputs:
+   a trailing byte, a first offset that does not match the offset table, bytes after a None *)
+Example ex_codec_accept :
+  exists c', flat_decode ex_codec_ty CFresh (spec_ser ex_codec_ty ex_codec_val) = OK (ex_codec_val, c').
+Proof. eexists. vm_compute. reflexivity. Qed.
+
+Example ex_codec_reject :
+  flat_decode (TList (TUint 2) 4) CFresh [Byte.x01; b0; Byte.x02] = Err /\
+  flat_decode (TList (TList (TUint 1) 4) 4) CFresh
+     (le_bytes 4 8 ++ le_bytes 4 7 ++ [b0]) = Err /\
+  flat_decode (TUnion true [TUint 1]) CFresh [b0; b0] = Err.
+Proof. vm_compute. repeat split. Qed.
+
+(* a fixed-size type: the hypotheses of C10_canonical_fixed *)
+Definition ex_codec_fixed_ty : ty := TContainer [TUint 2; TVector (TBytes 3) 2; TBitvector 9; TBool].
+Definition ex_codec_fixed_bs : list byte :=
+  [Byte.x01; Byte.x02; Byte.x0a; Byte.x0b; Byte.x0c; Byte.x0d; Byte.x0e; Byte.x0f; Byte.xff; Byte.x01;
+   Byte.x01].
+Example ex_codec_fixed_hyps :
+  wf_ty ex_codec_fixed_ty = true /\ small_params ex_codec_fixed_ty = true /\
+  spec_is_fixed ex_codec_fixed_ty = true /\
+  lenN ex_codec_fixed_bs = spec_fixed_len ex_codec_fixed_ty /\
+  exists v c', flat_decode ex_codec_fixed_ty CFresh ex_codec_fixed_bs = OK (v, c').
+Proof.
+  split; [reflexivity|]. split; [reflexivity|]. split; [reflexivity|]. split; [reflexivity|].
+  eexists _, _. vm_compute. reflexivity.
+Qed.
+
+(* the top level of a fixed-size value does not look at trailing bytes (hence the length premise of
+   C10_canonical_fixed) *)
+Example ex_codec_fixed_trailing :
+  exists c', flat_decode (TUint 2) CFresh [Byte.x01; Byte.x02; Byte.x03] = OK (VUint 513, c').
+Proof. eexists. vm_compute. reflexivity. Qed.
